@@ -34,7 +34,7 @@ type storeCfg struct {
 	ioConc      int  // number of value logs when not embedded
 	fileSize    int
 	compression int
-	vlogCache   int // Options.VLogCacheSize (0 = no value cache)
+	vlogCache   int  // Options.VLogCacheSize (0 = no value cache)
 	rewind      bool // a pre-committed transaction is discarded and its tx-log space written over
 }
 
@@ -388,11 +388,18 @@ func build(cfg storeCfg, rng *rand.Rand) (*image, error) {
 				return nil, err
 			}
 		}
-		hdr, err := tx.AsyncCommit(ctx)
-		if err != nil {
+		// the commit call pre-commits and then waits for an allowance that never comes
+		cctx, ccancel := context.WithTimeout(ctx, 300*time.Millisecond)
+		tx.AsyncCommit(cctx)
+		ccancel()
+		if err := st.Sync(); err != nil { // the pre-committed record reaches the files
 			return nil, err
 		}
-		if _, err := st.DiscardPrecommittedTxsSince(hdr.ID); err != nil {
+		pre := st.LastPrecommittedTxID()
+		if pre != st.LastCommittedTxID()+1 {
+			return nil, fmt.Errorf("rewind: expected one pre-committed transaction, precommitted=%d committed=%d", pre, st.LastCommittedTxID())
+		}
+		if _, err := st.DiscardPrecommittedTxsSince(pre); err != nil {
 			return nil, err
 		}
 		st.SetExternalCommitAllowance(false)
